@@ -19,7 +19,7 @@ from ..drivers import mirror_drv as drv
 
 ACTIONS = ["NDeliver", "NSkip", "NVanish", "NCrash", "Restart", "EndHandler", "MkDirs", "Cmp", "RmTmp", "CopyBegin", "CopyEnd",
            "Link", "MvRename", "Unlink", "Rename", "RmDirSrc", "RbRemove"]
-QUICK_WITNESSES = ["NoCrashBetweenCopyAndRename", "NoHalfCopyAfterCrash", "NoStaleEvent", "NoStaleEventOfNewest", "NeverTwoCopies", "NoExpiry",
+QUICK_WITNESSES = ["NoCrashBetweenCopyAndRename", "NoHalfCopyAfterCrash", "NoStaleEvent", "NoStaleEventOfNewest", "NoRemirrorAfterConsume", "NeverTwoCopies", "NoExpiry",
                    "NoRepeatedEvent", "NoExpiryOnOlderEvent", "NoRecopyOverHalf"]
 MORE_WITNESSES = ["NoStuckTmp", "NeverQuiescentAfterCrash"]
 
@@ -93,6 +93,25 @@ def derive_history(rec, rng, method):
         ev.insert(pos + 1, ("ev", "deleted", fid))
         for _ in range(rng.randint(1, 2)):
             ev.insert(rng.randint(pos + 2, len(ev)), ("ev", rng.choice(["created", "modified"]), fid))
+    # somebody downstream takes mirrored files out of the destination (and prunes emptied directories) while events of
+    # other files of the same directories are still to come
+    if rng.random() < 0.55:
+        data = rec.ids("rf") + rec.ids("md")
+        firsts = {}
+        for i, e in enumerate(ev):
+            if e[0] == "ev" and e[1] in ("created", "moved", "modified") and e[2] in data:
+                firsts.setdefault(e[2], i)
+        dirof = lambda f: os.path.dirname(rec.files[f - 1]["rel"])
+        # a file that is the only one of its directory in the destination when it is taken away, with another file of
+        # that directory still to come
+        pairs = [(a, b) for a in firsts for b in firsts if a != b and dirof(a) == dirof(b) and firsts[a] < firsts[b]
+                 and not any(c not in (a, b) and dirof(c) == dirof(a) and firsts[c] < firsts[b] for c in firsts)]
+        if pairs:
+            a, b = rng.choice(pairs)
+            ev.insert(rng.randint(firsts[a] + 1, firsts[b]), ("consume", a))
+        elif firsts:
+            a = rng.choice(sorted(firsts))
+            ev.insert(rng.randint(firsts[a] + 1, len(ev)), ("consume", a))
     # deletions reported for files the mirror itself moved away / expired
     for _ in range(rng.randint(0, 3)):
         ev.insert(rng.randint(len(ev) // 2, len(ev)), ("ev", "deleted", rng.randint(1, len(rec.files))))
@@ -172,6 +191,9 @@ def history_from_behaviour(beh, rec):
         elif a == "Vanish":
             steps.append(("vanish", fmap[last["f"]][0]))
             changing = 0
+        elif a == "Consume":
+            steps.append(("consume", fmap[last["f"]][0]))
+            changing = 0
         elif a == "VanishNewest":     # the deletion is reported in order
             steps.append(("vanish", fmap[last["f"]][0]))
             steps.append(("ev", "deleted", fmap[last["f"]][0]))
@@ -235,7 +257,7 @@ def corrupted_traces(scen, verdicts):
             e["dstT"][e["b"][2] - 1] = 0
             out.append((s, "C17-NoLossMove-data-file-intact-nowhere", "tmp. name after the moving rename set to 'absent'"))
     # 4. the newest metadata file is gone from the source at the end; 5. a selected file is missing in the destination
-    novanish = lambda s: not any(e["ev"] == "vanish" for e in s["events"])
+    novanish = lambda s: not any(e["ev"] in ("vanish", "consume") for e in s["events"])
     s = pick(lambda s: s["opts"]["method"] == "move" and "md" in s["cfg"]["kind"] and novanish(s))
     if s:
         c = s["cfg"]
